@@ -77,6 +77,26 @@ func drvOverload(args []string) int {
 	return 0
 }
 
+// ovDisc is registered after the overload plugin: its disconnect hook runs after the plugin's, so once it has
+// run for a session the plugin has released (or not) that session's slot.
+type ovDisc struct {
+	mu   sync.Mutex
+	done map[string]int
+}
+
+func (d *ovDisc) Name() string { return "verif-after-overloader" }
+func (d *ovDisc) PostDisconnect(s erpc.BaseSession) *erpc.Status {
+	d.mu.Lock()
+	d.done[Name(s)]++
+	d.mu.Unlock()
+	return nil
+}
+func (d *ovDisc) count(name string) int {
+	d.mu.Lock()
+	defer d.mu.Unlock()
+	return d.done[name]
+}
+
 type ovSess struct {
 	srv, cli erpc.Session
 	conn     *Conn
@@ -121,6 +141,7 @@ func runOverload(rec *Rec, sc *OverloadScenario, n int) {
 	cli := erpc.NewPeer(erpc.PeerConfig{})
 	var liveS []*ovSess
 	var rejectedOpen int32
+	after := &ovDisc{done: map[string]int{}}
 	k := 0
 	connect := func() bool {
 		k++
@@ -169,7 +190,7 @@ func runOverload(rec *Rec, sc *OverloadScenario, n int) {
 		switch st.Op {
 		case "limit":
 			ov = overloader.New(overloader.LimitConfig{MaxConn: int32(st.K)})
-			srv = erpc.NewPeer(erpc.PeerConfig{}, ov)
+			srv = erpc.NewPeer(erpc.PeerConfig{}, ov, after)
 			srv.RouteCall(new(T))
 			if sc.Path == "listen" {
 				lis = NewMemListener(fmt.Sprintf("OL%d", n))
@@ -230,12 +251,12 @@ func runOverload(rec *Rec, sc *OverloadScenario, n int) {
 			WaitUntil(time.Second, func() bool {
 				select {
 				case <-s.srv.CloseNotify():
-					return !s.srv.Health()
+					// ... and the disconnect hooks (the plugin's slot release among them) have run
+					return !s.srv.Health() && after.count(Name(s.srv)) > 0
 				default:
 					return false
 				}
 			})
-			time.Sleep(500 * time.Microsecond)
 			rec.Emit("Op", "op", st.Op, "k", 1, "admitted", 0)
 		}
 		// quiescent probe: how many sessions can complete a call
